@@ -141,6 +141,10 @@ type verifC08_scheduler struct {
 	requested []string
 	lastPBI  bool
 	sawCancelled bool
+	// ghost: after this call the scheduler may believe the worker is executing
+	// (it handed out an action, or the worker cannot know what it did because
+	// the call failed or its reply was unusable)
+	believes bool
 }
 
 func (s *verifC08_scheduler) Synchronize(ctx context.Context, in *remoteworker.SynchronizeRequest, opts ...grpc.CallOption) (*remoteworker.SynchronizeResponse, error) {
@@ -165,6 +169,12 @@ func (s *verifC08_scheduler) Synchronize(ctx context.Context, in *remoteworker.S
 		rt.Assert(in.PreferBeingIdle, "from the moment shutdown began every request asks to be left idle")
 	}
 	next := timestamppb.New(time.Unix(s.clk.now+[]int64{0, 10}[rt.Choose(2)], 0))
+	reportsRunning := false // the worker says it is in the middle of an action
+	if st, ok := in.CurrentState.WorkerState.(*remoteworker.CurrentState_Executing_); ok {
+		_, completed := st.Executing.ExecutionState.(*remoteworker.CurrentState_Executing_Completed)
+		reportsRunning = !completed
+	}
+	s.believes = true
 	switch rt.Choose(5) {
 	case 0:
 		rt.Cover("sched:execute")
@@ -175,9 +185,11 @@ func (s *verifC08_scheduler) Synchronize(ctx context.Context, in *remoteworker.S
 			Executing: &remoteworker.DesiredState_Executing{ActionDigest: &remoteexecution.Digest{Hash: h, SizeBytes: 1}, DigestFunction: remoteexecution.DigestFunction_SHA256}}}}, nil
 	case 1:
 		rt.Cover("sched:idle")
+		s.believes = false
 		return &remoteworker.SynchronizeResponse{NextSynchronizationAt: next, DesiredState: &remoteworker.DesiredState{WorkerState: &remoteworker.DesiredState_Idle{Idle: &emptypb.Empty{}}}}, nil
 	case 2:
 		rt.Cover("sched:no-change")
+		s.believes = reportsRunning
 		return &remoteworker.SynchronizeResponse{NextSynchronizationAt: next}, nil
 	case 3:
 		rt.Cover("sched:rpc-error")
@@ -252,6 +264,7 @@ func verifHarness_C08_BuildClient() {
 				rt.Cover("shutdown:terminates")
 				u := bc.schedulerMayThinkExecutingUntil
 				rt.Assert(u == nil || clk.Now().After(*u), "the worker only terminates once the scheduler cannot believe it is still executing")
+				rt.Assert(!sched.believes || clk.Now().After(bc.nextSynchronizationAt.Add(time.Minute)), "after a failed call or an unusable reply the worker keeps synchronizing on shutdown: the scheduler may have handed it an action")
 			} else {
 				rt.Cover("shutdown:keeps-synchronizing")
 			}
